@@ -310,6 +310,46 @@ theorem C09_typed_sequence_step (T : Table) (s : State) (q m : Nat) (fuel : Nat)
   rw [membersOf_addMember]
   simp [hq, read_addMember]
 
+/-! ## Near-equal requests, repeated keys, filled sequences -/
+
+/-- **Near-equal requests report their own types.**  A type GIVEN is reported exactly by each of two requests that differ only in that
+    type -- `(int, "42")` and `(const int, "42")`, two function declarations of one name whose types differ only in the exception
+    specification -- in either order: the one made first (`args'`) and the one made after it in the store the first left behind. -/
+theorem C09_near_equal_types_are_own (T : Table) (r : Row) (hf : T.find? r.key = some r) (i : Nat) (ht : r.typ = some (.arg i))
+    (fuel : Nat) (s : State) (args args' : List Val) :
+    typeOfMade T fuel s r args' = args'.getD i .error ∧
+    typeOfMade T fuel (make T fuel s r.key args').1 r args = args.getD i .error :=
+  ⟨C09_given T r hf i ht fuel s args', C09_given T r hf i ht fuel (make T fuel s r.key args').1 args⟩
+
+/-- The `#near-equal` form of a documented row has the type column of the base row. -/
+theorem C09_near_equal_form_keeps_type (r : Row) : (Spec.form r "#near-equal").typ = r.typ := rfl
+
+/-- **A later addition never merges with an earlier member.**  Two additions to sequence `q` -- of members with the same type (and
+    name), of the very same member twice, of anything -- leave a sequence with two more members, the new ones LAST and in the order
+    of the additions, and the type of the sequence gains exactly their two types as its last components. -/
+theorem C09_addition_never_merges (T : Table) (s : State) (q m₁ m₂ : Nat) (fuel : Nat) (hq : q < s.nodes.length) :
+    membersOf (addMember (addMember s q m₁) q m₂) q = membersOf s q ++ [m₁, m₂] ∧
+    typeElems T (addMember (addMember s q m₁) q m₂) fuel q = typeElems T s fuel q ++ [read T s fuel m₁ "type", read T s fuel m₂ "type"] := by
+  have hq' : q < (addMember s q m₁).nodes.length := by rw [addMember_length]; exact hq
+  constructor
+  · rw [membersOf_addMember, membersOf_addMember]
+    simp [hq, hq']
+  · rw [C09_typed_sequence_step T (addMember s q m₁) q m₂ fuel hq', C09_typed_sequence_step T s q m₁ fuel hq, read_addMember]
+    simp
+
+/-- … so the size grows by one per addition and the member added k-th from now sits at index `old size + k`: positions are indices. -/
+theorem C09_addition_position (T : Table) (s : State) (q m : Nat) (hq : q < s.nodes.length) :
+    (membersOf (addMember s q m) q).length = (membersOf s q).length + 1 ∧
+    (membersOf (addMember s q m) q)[(membersOf s q).length]? = some m := by
+  have _ := T
+  rw [membersOf_addMember]
+  simp [hq]
+
+/-- The documented row of a member added after one whose key it repeats has the type column of the base row: the type given to THIS
+    addition; the row of a result whose member sequences were filled has the type column of the base row. -/
+theorem C09_later_member_keeps_given_type (r : Row) (sfx : String) (extra : List String) (name : Option Src) :
+    (Spec.secondMember r sfx extra name).typ = r.typ ∧ (Spec.filledForm r).typ = r.typ := ⟨rfl, rfl⟩
+
 /-! Non-vacuity, and the contrast with an eager product. -/
 section examples
 def T0 : Table := [{ key := "mk", kind := .Phantom, cat := .Phantom, storage := .generative, sorts := ["Type"], typ := some (.arg 0), acc := [] }]
